@@ -24,7 +24,9 @@ RULE = ("class chains of C01 (aliases, private names, kw_only, init=False, conve
         "another class, by other names), lists or such instances; sometimes one name that is no key: unknown, a field's name where the alias "
         "is wanted (or the alias where the name is wanted), an init=False field, a method / property / class constant of "
         "the class, an instance-dict extra, dunder names of attrs classes, names resolving on every tuple) x "
-        "harness-only variation the model is independent of: the instance's class is the leaf or a plain subclass of it "
+        "harness-only variation the model is independent of: about 15% of the leaves are declared with init=False and get a "
+        "hand-written __init__(self, *args, **kw) (on a plain subclass) that logs its call, sets non-field state and "
+        "delegates to __attrs_init__ -- evolve must go through it; the instance's class is the leaf or a plain subclass of it "
         "(with or without __slots__ = (); it defines a method, a property and a constant); every passed value is a new "
         "object, either of a str subclass or a plain str. assoc runs on every layout (dict classes below slotted attrs "
         "classes, plain classes in between, plain subclasses; instances with unset init=False fields where copying does "
@@ -39,7 +41,10 @@ ASSUMPTIONS = c01.ASSUMPTIONS + [
     "invariants are observed against an instance rebuilt from the result's own field values (eq, hash incl. cached hash, frozenness)",
     "likeDirect is a run-time comparison: after evolve the class is called directly with the same argument objects "
     "(current values read with getattr) and exception kind, stored values and callback trace are compared; it also "
-    "requires the process-wide validator switch to be what it was before the operation",
+    "requires the process-wide validator switch to be what it was before the operation, and -- for classes with a "
+    "hand-written __init__ -- the same log of __init__ calls (once, with the changed + carried values) and the same "
+    "non-field state on the result; the hand-written __init__ hands its arguments on unchanged and never raises itself "
+    "(a normalising or rejecting __init__ would need a model of that code; bypassing it is what is observed)",
     "state-dependent validators are harness callbacks (one rule shape: reject iff a watched field of the instance "
     "handed in holds a value whose text contains 'bad'); the Lean model knows the rules (Case.veto) and the order in "
     "which the generated initializer calls validators",
@@ -187,10 +192,27 @@ CLEAN_NAMES = ["nope", "x_", "__attrs_attrs__", "__match_args__", "__setstate__"
 TUPLE_NAMES = ["count", "index", "__len__", "__doc__", "__module__", "__getstate__", "__init__"]
 
 
-def _ps_body(L, ps):
-    """a plain subclass with the usual non-field members: a method, a class constant, a read-only property"""
+CUSTOM_CALLS: list = []    # calls of the hand-written __init__ (positional args, sorted keyword args), canonicalised
+
+
+def _custom_init(self, *args, **kw):
+    """a hand-written initializer of a class declared with init=False: logs its call, sets state that is no field, then
+    delegates to the generated __attrs_init__ with the very objects it was given"""
+    CUSTOM_CALLS.append([[ib._canon(a) for a in args], sorted([k, ib._canon(v)] for k, v in kw.items())])
+    try:
+        object.__setattr__(self, "zz_audit", "set-by-__init__")
+    except Exception:  # noqa: BLE001  -- no __dict__
+        pass
+    self.__attrs_init__(*args, **kw)
+
+
+def _ps_body(L, ps, custom_init=False):
+    """a plain subclass with the usual non-field members: a method, a class constant, a read-only property; and, below
+    a leaf declared with init=False, the hand-written __init__"""
     ns = {"__module__": L.__module__, "describe": lambda self: "described", "LIMIT": 5,
           "area": property(lambda self: "area")}
+    if custom_init:
+        ns["__init__"] = _custom_init
     if ps == "slots":
         ns["__slots__"] = ()
     return ns
@@ -211,7 +233,7 @@ def _history(h, ctor, hist, veto=None, veto_exc="plain"):
         # the instance's class is a plain (undecorated) subclass of the leaf: same fields, same initializer, but
         # `type(inst).__dict__` has no __slots__ (or an empty one) whatever the storage of the fields is
         L = C
-        C = type("PS", (L,), _ps_body(L, ps))
+        C = type("PS", (L,), _ps_body(L, ps, bool(hist.get("custom_init"))))
         _SHAPE_CLS[0] = C
         inst = C.__new__(C)
         ib.SELF[0] = inst
@@ -314,7 +336,14 @@ def gen_cases(tier, rng):
     n_classes = 2500 if tier == "quick" else 50000
     for _ in range(n_classes):
         h = ib.gen_hspec(rng)
-        h["classes"][-1].pop("init", None)   # evolve goes through cls(...): a class without generated __init__ is out of scope
+        # a leaf declared with init=False keeps the generated initializer as __attrs_init__; evolve goes through
+        # cls(...), i.e. through the hand-written __init__ the (plain sub)class provides (hist["custom_init"])
+        leaf_ = h["classes"][-1]
+        custom = leaf_.get("init") is False or (not leaf_.get("cache_hash") and rng.random() < 0.08)
+        if custom:
+            leaf_["init"] = False
+        else:
+            leaf_.pop("init", None)
         if rng.random() < 0.12:
             # fields that are themselves named like attributes of every tuple: genuine fields all the same
             _rename_fields(h, {"w": "count", "z": "index"})
@@ -356,6 +385,9 @@ def gen_cases(tier, rng):
                 hist = {"hash_before": rng.random() < 0.6, "reassign": [], "warm": [], "warm_sub": rng.random() < 0.3,
                         "plain_sub": rng.choice([None, None, None, None, None, "dict", "dict", "slots"]),
                         "extra_attr": rng.random() < 0.3}
+                if custom:
+                    hist["custom_init"] = True
+                    hist["plain_sub"] = rng.choice(["dict", "dict", "slots"])
                 if len(h["classes"]) > 1 and rng.random() < 0.6:
                     for i, cs in enumerate(h["classes"][:-1]):
                         if cs["kind"] == "attrs" and cs.get("init") is not False:
@@ -445,7 +477,8 @@ def defines(case):
 
 
 def _direct(inst, C, h, passed):
-    """what calling the class directly with evolve's arguments does: (exception kind, values, callback trace)"""
+    """what calling the class directly with evolve's arguments does: (exception kind, values, callback trace, calls of
+    a hand-written __init__, the non-field state it leaves)"""
     names = [f["name"] for f in ib.expected_fields(h)]
     kwargs = dict(passed)
     for f in ib.expected_fields(h):
@@ -456,10 +489,11 @@ def _direct(inst, C, h, passed):
             try:
                 kwargs[al] = getattr(inst, f["name"])
             except AttributeError:
-                return "attributeError", [], []
+                return "attributeError", [], [], [], None
     ib.SELF[0] = None
     ib.SELF_CLASS[0] = C
     del ib.TRACE[:]
+    del CUSTOM_CALLS[:]
     exc, res = None, None
     try:
         res = C(**kwargs)
@@ -469,10 +503,12 @@ def _direct(inst, C, h, passed):
         ib.SELF_CLASS[0] = None
     trace = list(ib.TRACE)
     del ib.TRACE[:]
+    calls = list(CUSTOM_CALLS)
+    del CUSTOM_CALLS[:]
     if exc is not None:
-        return exc, [], trace
+        return exc, [], trace, calls, None
     ib.SELF[0] = res
-    return None, ib.read_values(res, names), trace
+    return None, ib.read_values(res, names), trace, calls, getattr(res, "zz_audit", None)
 
 
 def observe(case):
@@ -501,6 +537,7 @@ def _observe(case):
     exc = None
     res = None
     passed = {k: _passed(v, case.get("passed_as", "sub")) for k, v in case["changes"]}
+    del CUSTOM_CALLS[:]
     if case.get("same_obj"):
         # the object the original holds itself is the new value
         by_key = {(f.get("alias") or ib.default_alias(f["name"])) if case["op"] == "evolve" else f["name"]: f["name"]
@@ -525,6 +562,8 @@ def _observe(case):
         ib.SELF_CLASS[0] = None
     trace = list(ib.TRACE)
     del ib.TRACE[:]
+    calls = list(CUSTOM_CALLS)
+    del CUSTOM_CALLS[:]
     switch_kept = attr.validators.get_disabled() == switch
     ib.SELF[0] = inst
     orig = ib.read_values(inst, names)
@@ -536,8 +575,12 @@ def _observe(case):
         if res is not None:
             ib.SELF[0] = res
         ev_values = ib.read_values(res, names) if exc is None else []
-        d_exc, d_values, d_trace = _direct(inst, C, h, passed)
-        like = bool(switch_kept and d_exc == exc and d_values == ev_values and d_trace == trace)
+        ev_audit = getattr(res, "zz_audit", None) if exc is None else None
+        d_exc, d_values, d_trace, d_calls, d_audit = _direct(inst, C, h, passed)
+        like = bool(switch_kept and d_exc == exc and d_values == ev_values and d_trace == trace
+                    # a hand-written __init__ is gone through exactly as a direct call goes through it: called once
+                    # with the changed + carried values, leaving the same non-field state
+                    and d_calls == calls and d_audit == ev_audit)
         ib.SELF[0] = inst
     elif not switch_kept:
         like = False
@@ -629,6 +672,7 @@ def dist(case, obs):
         by_key[a["alias"] if case["op"] == "evolve" else a["name"]] = a
     d["equal_change"] = sum(1 for k, v in case["changes"] if k in by_key and curd.get(by_key[k]["name"]) == v and v != "None")
     d["passed_as"] = case.get("passed_as", "sub")
+    d["hand_written_init"] = bool(case["hist"].get("custom_init"))
     # value shapes: what the changed field holds now / what it is given
     def _shape(v):
         return "unset" if v is None else v.split(":")[0] if v in _SHAPE_SET else "text"
@@ -668,7 +712,7 @@ def shrink(case):
         yield dict(case, hist=dict(case["hist"], warm=[]))
     if case["hist"].get("warm_sub"):
         yield dict(case, hist=dict(case["hist"], warm_sub=False))
-    if case["hist"].get("plain_sub"):
+    if case["hist"].get("plain_sub") and not case["hist"].get("custom_init"):
         # the layout facts of the instance's class go with the class
         cand = dict(case, hist=dict(case["hist"], plain_sub=None))
         try:
